@@ -1,6 +1,6 @@
 """C11 — multithreaded compression under every schedule of the bound."""
 RULE = ('drivers D1 (3 jobs, one e_end call), D2 (continue/flush/continue/end with 7-byte output), D3 (LDM + checksum, 6 jobs), D4 (overlapLog x prefix/CDict), '
-        'D5 (level changed between jobs), D6 (frame abandoned after k calls by reset or free, then a new frame), D10 (abandoned, then a frame with more workers), D12 (flush carrying new input while every worker is busy), D14 (overlap as large as a job, half-size first job, one job of input per call: round-buffer re-use), D16 (LDM, 3-4 workers, 16 jobs fed two at a time), D15 (rsyncable, 256 KiB jobs, 2.5 MiB, end / flush with and without payload), D13 (level changed between 1 MiB jobs with the level-derived default window, repeats 700 000 bytes back), D9 (worker count changed between frames) run the real '
+        'D5 (level changed between jobs), D6 (frame abandoned after k calls by reset or free, then a new frame), D10 (abandoned, then a frame with more workers), D12 (flush carrying new input while every worker is busy), D14 (overlap as large as a job, half-size first job, one job of input per call: round-buffer re-use), D17 (slow consumer: 12 jobs offered with one byte of output room per call), D16 (LDM, 3-4 workers, 16 jobs fed two at a time), D15 (rsyncable, 256 KiB jobs, 2.5 MiB, end / flush with and without payload), D13 (level changed between 1 MiB jobs with the level-derived default window, repeats 700 000 bytes back), D9 (worker count changed between frames) run the real '
         'ZSTD_compressStream2 + zstdmt + pool code with 1 KiB jobs under the deterministic scheduler; every schedule with <= P preemptions and <= D deviations is executed; '
         'plus two seam harnesses that call the serial-section functions (jobs arriving in every order, with an error-path job skipping ahead) and its buffer / cctx pools directly from 2-5 threads under EVERY schedule (state cache, no bound); oracles: terminates, frame decodes to the input (library + reference decoder, checksum), completed flush decodable, one output per subject; '
         'distinct = distinct (output, switch count); non-trivial = more than 4 thread switches')
@@ -12,7 +12,7 @@ TSAN = {'TSAN_OPTIONS': 'halt_on_error=1:report_signal_unsafe=0:die_after_fork=0
 def run(vc, tier):
     c = vc.Check('C11', tier, 'model_checking', RULE)
     kw = dict(engine_srcs=ENG)
-    plan = [(2, 2, 2), (3, 2, 2), (4, 1, 2), (5, 2, 2), (12, 2, 2), (14, 1, 1), (16, 1, 1), (9, 1, 2), (10, 1, 1), (1, 2, 2), (6, 1, 1)] if tier == 'quick' else [(2, 2, 3), (3, 2, 3), (4, 2, 3), (5, 2, 3), (12, 2, 3), (14, 2, 2), (16, 1, 1), (9, 2, 2), (10, 1, 2), (1, 3, 3), (6, 2, 2)]
+    plan = [(2, 2, 2), (3, 2, 2), (4, 1, 2), (5, 2, 2), (12, 2, 2), (14, 1, 1), (16, 1, 1), (17, 1, 1), (9, 1, 2), (10, 1, 1), (1, 2, 2), (6, 1, 1)] if tier == 'quick' else [(2, 2, 3), (3, 2, 3), (4, 2, 3), (5, 2, 3), (12, 2, 3), (14, 2, 2), (16, 1, 1), (17, 2, 2), (9, 2, 2), (10, 1, 2), (1, 3, 3), (6, 2, 2)]
     left = len(plan)
     for drv, P, D in plan:
         c.run_vx_unit('c11-d%d' % drv, SRC, 'sched-asan', ['--driver', drv, '--P', P, '--D', D, '--exec-timeout', 20000], share=1.0 / left, **kw)
